@@ -1,0 +1,68 @@
+//go:build verif
+
+// Contracts for package formats, read by /verif/govc (comment-only file).
+package formats
+
+// line sniffers (package-level list sniffFormats): each may use the scratch state
+//@ interface sniffFormat.sniff(s sniffFormat, data []byte)
+//@   holds stateMtx
+//@   assigns global(state), (state)[*]
+
+//@ func Sniffer.SniffReader
+//@   props C04, C06
+//@   requires f != nil
+//@   requires forall i int :: 0 <= i && i < len(sniffFormats) ==> sniffFormats[i] != nil
+//@   assigns global(state), (state)[*]
+//@   ensures [C04:sniff:oneOf] (result1 == nil) != (result0 == "")
+//@   ensures [C06:rewind] seekfailed(f) || streampos(f) == 0
+//@   ensures [C06:json:cdx13] jsonok(f) && strings.EqualFold(jsonmember(f, "bomFormat"), CDXFORMAT) && jsonmember(f, "specVersion") == "1.3" ==> result0 == CDX13JSON && result1 == nil
+//@   ensures [C06:json:cdx14] jsonok(f) && strings.EqualFold(jsonmember(f, "bomFormat"), CDXFORMAT) && jsonmember(f, "specVersion") == "1.4" ==> result0 == CDX14JSON && result1 == nil
+//@   ensures [C06:json:cdx15] jsonok(f) && strings.EqualFold(jsonmember(f, "bomFormat"), CDXFORMAT) && jsonmember(f, "specVersion") == "1.5" ==> result0 == CDX15JSON && result1 == nil
+//@   ensures [C06:json:cdxOther] jsonok(f) && strings.EqualFold(jsonmember(f, "bomFormat"), CDXFORMAT) && jsonmember(f, "specVersion") != "1.3" && jsonmember(f, "specVersion") != "1.4" && jsonmember(f, "specVersion") != "1.5" ==> result0 == "" && result1 != nil
+//@   ensures [C06:json:spdx22] jsonok(f) && !strings.EqualFold(jsonmember(f, "bomFormat"), CDXFORMAT) && jsonmember(f, "spdxVersion") == "SPDX-2.2" ==> result0 == SPDX22JSON && result1 == nil
+//@   ensures [C06:json:spdx23] jsonok(f) && !strings.EqualFold(jsonmember(f, "bomFormat"), CDXFORMAT) && jsonmember(f, "spdxVersion") == "SPDX-2.3" ==> result0 == SPDX23JSON && result1 == nil
+//@   ensures [C06:json:spdxOther] jsonok(f) && !strings.EqualFold(jsonmember(f, "bomFormat"), CDXFORMAT) && jsonmember(f, "spdxVersion") != "SPDX-2.2" && jsonmember(f, "spdxVersion") != "SPDX-2.3" ==> result0 == "" && result1 != nil
+
+//@ func Sniffer.SniffFile
+//@   props C04
+//@   requires forall i int :: 0 <= i && i < len(sniffFormats) ==> sniffFormats[i] != nil
+//@   assigns global(state), (state)[*]
+//@   ensures [C04:sniff:oneOf] (result1 == nil) != (result0 == "")
+
+//@ func spdxSniff.sniff
+//@   props C04
+//@   holds stateMtx
+//@   requires state != nil
+//@   assigns global(state), (state)[*]
+
+//@ func cdxSniff.sniff
+//@   props C04
+//@   assigns \nothing
+
+//@ global sniffFormats immutable-after-init
+//@ global List immutable-after-init
+//@ global ListFormats immutable-after-init
+//@ global state guarded_by stateMtx
+//@ global stateMtx trusted-concurrent
+//@ package-props C17
+
+//@ func cdxSniff.sniff
+//@   holds stateMtx
+//@ func Sniffer.sniff
+//@   holds stateMtx
+//@   requires forall i int :: 0 <= i && i < len(sniffFormats) ==> sniffFormats[i] != nil
+//@ func initSniffState
+//@   holds stateMtx
+//@ func getSniffState
+//@   holds stateMtx
+//@ func setSniffState
+//@   holds stateMtx
+
+// C06: the accessors of each format the sniffer reports agree with the
+// declaration the decision table in SniffReader maps to that format
+//@ table accessorsCDX13 [C06]: forall p *Format :: p != nil && *p == CDX13JSON ==> Format.Type(p) == "cyclonedx" && Format.Version(p) == "1.3" && Format.Encoding(*p) == "json" && Format.Major(p) == "1" && Format.Minor(p) == "3"
+//@ table accessorsCDX14 [C06]: forall p *Format :: p != nil && *p == CDX14JSON ==> Format.Type(p) == "cyclonedx" && Format.Version(p) == "1.4" && Format.Encoding(*p) == "json" && Format.Major(p) == "1" && Format.Minor(p) == "4"
+//@ table accessorsCDX15 [C06]: forall p *Format :: p != nil && *p == CDX15JSON ==> Format.Type(p) == "cyclonedx" && Format.Version(p) == "1.5" && Format.Encoding(*p) == "json" && Format.Major(p) == "1" && Format.Minor(p) == "5"
+//@ table accessorsSPDX22 [C06]: forall p *Format :: p != nil && *p == SPDX22JSON ==> Format.Type(p) == "spdx" && Format.Version(p) == "2.2" && Format.Encoding(*p) == "json" && Format.Major(p) == "2" && Format.Minor(p) == "2"
+//@ table accessorsSPDX23 [C06]: forall p *Format :: p != nil && *p == SPDX23JSON ==> Format.Type(p) == "spdx" && Format.Version(p) == "2.3" && Format.Encoding(*p) == "json" && Format.Major(p) == "2" && Format.Minor(p) == "3"
+//@ table accessorsSPDXTV [C06]: forall p *Format :: p != nil && (*p == SPDX23TV || *p == SPDX22TV) ==> Format.Type(p) == "spdx" && Format.Encoding(*p) == "text" && Format.Major(p) == "2"
